@@ -84,14 +84,41 @@ def ids_of_lists(n, acc):
                 ids_of_lists(v, acc)
     return acc
 
+def state_snapshot(n, acc):
+    """the instance state of every node object in the tree: its __dict__ exactly (names, and children by identity / scalars by value).
+    Dataclass equality does not see extra instance attributes (e.g. a cached value written into a frozen node's __dict__); this does."""
+    if dataclasses.is_dataclass(n) and not isinstance(n, type):
+        st = []
+        for k, v in sorted(vars(n).items()):
+            if isinstance(v, list):
+                st.append((k, "list", id(v), tuple(id(x) for x in v)))
+                for x in v:
+                    state_snapshot(x, acc)
+            elif dataclasses.is_dataclass(v):
+                st.append((k, "node", id(v)))
+                state_snapshot(v, acc)
+            else:
+                st.append((k, "val", repr(v)))
+        acc[id(n)] = (type(n).__name__, tuple(st))
+    return acc
+
 def real_nonmutation(case):
     name, fn, node = case
     before = enc(node)
+    snap = state_snapshot(node, {})
+    trace0, gen0 = real_trace(node), real_generic(node)
     try:
         fn(node)
     except Exception:  # noqa: backends may refuse; the tree must still be intact
         pass
-    return "unchanged" if enc(node) == before else "mutated:" + name
+    if enc(node) != before:
+        return "mutated:" + name
+    if state_snapshot(node, {}) != snap:
+        return "instance-state-changed:" + name
+    # … and the same tree object is traversed / rebuilt exactly as before the translation
+    if real_trace(node) != trace0 or real_generic(node) != gen0:
+        return "later-traversal-differs:" + name
+    return "unchanged"
 
 def run(ctx):
     common.build_and_audit(ctx, PROP_MODS)
@@ -100,7 +127,11 @@ def run(ctx):
     nodes = [g.gen(ctx.rng.randint(0, 4)) for _ in range(n)]
     # parsed corpus too: the parser builds lists by in-place append (grammar.py:405)
     import impl
-    for f in gens.VALID_FILTERS:
+    # filters over the scalar verification table, so that the ORM visitors really translate every literal kind (and read its py_val)
+    T_FILTERS = ["d1 eq 2020-01-01", "dt1 ge 2020-01-01T10:00:00Z", "s1 eq 01234567-89ab-cdef-0123-456789abcdef", "d1 in (2020-01-01, 1999-12-31)",
+                 "dt1 lt 2020-01-01T00:00:00+02:00 or d1 ne null", "i1 add 2 gt i2 and contains(s1, 'a')", "f1 lt 1.5 and b1 eq true", "year(d1) eq 2020 and hour(dt1) lt 12",
+                 "not (s1 in ('a', 'b')) and length(s2) gt 1", "dt1 eq 2020-02-29T23:59:59.5Z", "d1 ge 0001-01-01 and d1 le 9999-12-31"]
+    for f in gens.VALID_FILTERS + T_FILTERS:
         try:
             nodes.append(impl.real_parse_ast(f))
         except Exception:  # noqa
@@ -135,7 +166,14 @@ def run(ctx):
                       nontrivial=lambda c, r: True, describe=lambda c: (repr(c[1])[:150], repr(c[3])[:150]), bucket=lambda c, r: r)
     # non-mutation: a runtime fact, the model side is the constant "unchanged"
     vis = shipped_visitors()
-    nm = [(name, fn, copy.deepcopy(nd)) for (w, nd) in uniq[:: (1 if ctx.thorough else 3)] for (name, fn) in vis]
+    tkeys = set()
+    for f in T_FILTERS:
+        try:
+            tkeys.add(enc(impl.real_parse_ast(f)))
+        except Exception:  # noqa
+            pass
+    sample = uniq[:: (1 if ctx.thorough else 3)] + [u for u in uniq if u[0] in tkeys]
+    nm = [(name, fn, copy.deepcopy(nd)) for (w, nd) in sample for (name, fn) in vis]
     common.correspond(ctx, "non-mutation", nm, real_fn=real_nonmutation,
                       model_reqs=lambda c: driver.req("ping"), model_parse=lambda m: "unchanged" if m == "pong" else m,
                       nontrivial=lambda c, r: True, describe=lambda c: (c[0], repr(c[2])[:300]), bucket=lambda c, r: c[0])
@@ -166,7 +204,7 @@ def run(ctx):
                                   "why": "== disagrees with structural identity", "signature": "C16:eq"})
             elif name == "non-mutation":
                 if r != "unchanged":
-                    found.append({"property": "C16", "visitor": c[0], "input_before": repr(c[2])[:1500], "why": "a traversal modified the tree it was given",
+                    found.append({"property": "C16", "visitor": c[0], "input_before": repr(c[2])[:1500], "why": "a traversal modified the tree it was given (value, instance state of a node, or what a later traversal of the same object does)",
                                   "signature": "C16:mutation:" + c[0]})
         ctx.extra["searched"] = "every differing case of the five correspondences, judged by Spec.Traversal (Lean) / structural identity of the wire form"
         return found
